@@ -4,13 +4,14 @@ environment index pairing. Energies, convergence and canonical form of results a
 not decided."""
 import ast
 
-from ..core import (AnalysisError, body_nodes, call_name, dotted, is_self_attr, key_text, names_in,
+from ..core import (AnalysisError, local_defs, body_nodes, call_name, dotted, is_self_attr, key_text, names_in,
                     params, parent, stmts_of, unparse)
 from ..dtable import run_paths, subst
 from ..normal import inline_temps
 from ..pattern import find, guards_of, pmatch
 from ..linform import NotPoly, Poly, eval_poly
 
+DMRG = 'tenpy/algorithms/dmrg.py'
 MC = 'tenpy/algorithms/mps_common.py'
 FILES = ['tenpy/algorithms/mps_common.py', 'tenpy/algorithms/dmrg.py', 'tenpy/algorithms/tdvp.py',
          'tenpy/algorithms/vumps.py', 'tenpy/algorithms/dmrg_parallel.py',
@@ -315,6 +316,73 @@ def check_env_pairing(prog, rep):
                           '0.5 (the other half comes from the adjoint)', mx.lineno)
 
 
+def check_block_dtype(prog, rep):
+    """dmrg.py / mps_common.py: a block created with get_block(.., insert=True) has the dtype of
+    the tensor it is inserted into. When that tensor was made with X.zeros_like() and the data
+    written into the block come from another array (the eigenvectors of the effective
+    Hamiltonian), the tensor's dtype must first be promoted with the dtype of that source --
+    otherwise a complex eigenvector is truncated to its real part."""
+    from ..cfg import CFG
+    n = 0
+    for rel in (DMRG, MC):
+        m = prog.module(rel)
+        for q, f in m.functions.items():
+            ins = [(st, e) for st in stmts_of(f) if isinstance(st, ast.Assign)
+                   for e in [pmatch('$b = $t.get_block($$idx, insert=True)', st)] if e]
+            for st, e in ins:
+                t, b = e['$t'], e['$b']
+                made = [s2 for s2 in stmts_of(f) if pmatch('%s = $$src.zeros_like()' % t, s2)]
+                if not made:
+                    continue
+                like = unparse(pmatch('%s = $$src.zeros_like()' % t, made[0])['$$src'])
+                # data written into the block, and the arrays they are computed from
+                writes = [s2 for s2 in stmts_of(f) if isinstance(s2, ast.Assign) and any(
+                    isinstance(tg, ast.Subscript) and unparse(tg.value) == b for tg in s2.targets)]
+                defs = local_defs(f)
+                srcs = set()
+                for w in writes:
+                    todo = list(names_in(w.value))
+                    seen = set()
+                    while todo:
+                        nm = todo.pop()
+                        if nm in seen:
+                            continue
+                        seen.add(nm)
+                        for v in defs.get(nm, []):
+                            todo.extend(names_in(v))
+                    srcs |= seen
+                others = sorted(x for x in srcs if x in params(f) or any(
+                    isinstance(v, ast.Call) and isinstance(v.func, ast.Attribute) and
+                    v.func.attr in ('to_matrix', 'get_block', 'to_ndarray')
+                    for v in defs.get(x, [])))
+                others = [x for x in others if x != like and x != t]
+                n += 1
+                rep.instance('ED-block-dtype', {'function': q, 'tensor': t, 'like': like,
+                                                'block_data_from': others})
+                if not others:
+                    continue
+                cfg = CFG(f)
+
+                def promoted(nd, t=t, others=others):
+                    s2 = nd.stmt
+                    if not isinstance(s2, ast.Assign) or unparse(s2.targets[0]) != t + '.dtype':
+                        return False
+                    v = unparse(s2.value)
+                    return any(k in v for k in ('promote_types', 'result_type',
+                                                'find_common_type')) and any(
+                        (o + '.dtype') in v for o in others)
+
+                if not cfg.dominators_like_before(st, promoted):
+                    rep.violation('ED-block-dtype', m, q, 'no-promotion:' + t,
+                                  '`%s` inserts a block into `%s` (made by %s.zeros_like(), so of '
+                                  'its dtype) and fills it with data computed from %s, but '
+                                  '`%s.dtype` is not promoted with the dtype of that source '
+                                  'before: complex eigenvectors of a complex effective Hamiltonian '
+                                  'lose their imaginary part when the guess is real' %
+                                  (key_text(st)[:70], t, like, ', '.join(others), t), st.lineno)
+    return n
+
+
 def run(prog, rep, tier):
     rep.rule('HOOKS-keys', 'per concrete Sweep subclass (MRO-resolved): the dict returned by '
              'update_local has a key for every named parameter of post_update_local and every '
@@ -325,10 +393,14 @@ def run(prog, rep, tier):
              'explicit_plus_hc wrap (or an assertion on the flag)')
     rep.rule('HOOKS-env-pairing / wrapper-order / mixer', 'environment index pairing, hook order, '
              'orthogonal projection outermost')
+    rep.rule('ED-block-dtype', 'a tensor made by zeros_like() whose inserted block receives data '
+             'from another array has its dtype promoted first (must-precede on the CFG)')
     n1 = check_hooks(prog, rep)
     n2 = check_schedules(prog, rep)
     n3 = check_hcflag_sites(prog, rep)
     check_env_pairing(prog, rep)
+    if check_block_dtype(prog, rep) < 1:
+        raise AnalysisError('ED-block-dtype: the block insertion of full_diag_effH was not found')
     rep.floor('HOOKS-keys', 8)
     rep.floor('HOOKS-schedule', 5)
     rep.floor('HCFLAG-heff', 8)
